@@ -1,6 +1,7 @@
 ------------------------------ MODULE TrigCore ------------------------------
 (* Shared operators of the state-trigger pipeline (C04, reused by C05/C07/C09).            *)
-(* Entities a, b; an entity state is a record [v, x] (value, one attribute) or Absent.     *)
+(* Entities a, b; an entity state is a record [v, x] (value, one attribute; x = "-" when   *)
+(* the entity has no such attribute) or Absent.                                              *)
 (* A trigger form F is data (spec/trig_forms.json, the same file the harness renders to    *)
 (* decorator source):                                                                       *)
 (*   F.expr  : expression tree  eq/ne(name, const) | and | or | not | none                 *)
@@ -22,7 +23,7 @@ Range(s) == { s[i] : i \in 1..Len(s) }
 \* undefined variables and attributes read as None
 Look(val, nm) ==
   CASE nm.f = "v"   -> IF IsNone(val.cur[nm.e]) THEN NoneS ELSE val.cur[nm.e].v
-    [] nm.f = "x"   -> IF IsNone(val.cur[nm.e]) THEN NoneS ELSE val.cur[nm.e].x
+    [] nm.f = "x"   -> IF IsNone(val.cur[nm.e]) \/ val.cur[nm.e].x = "-" THEN NoneS ELSE val.cur[nm.e].x   \* "-": no such attribute
     [] nm.f = "old" -> IF IsNone(val.old[nm.e]) THEN NoneS ELSE val.old[nm.e].v
     [] OTHER        -> NoneS
 
